@@ -24,7 +24,9 @@ TRUE = ('true',)
 
 
 def flat_and(c, pos, neg):
-    if c[0] == 'and':
+    if c[0] == 'okcond':
+        flat_and(c[1], pos, neg)
+    elif c[0] == 'and':
         for x in c[1]:
             flat_and(x, pos, neg)
     elif c[0] == 'not':
